@@ -107,6 +107,13 @@ type Run interface {
 	Extra() map[string]int
 }
 
+// SeqRun is implemented by runs of sequential code: the simulator owns the
+// environment (disk, streams, clock, iteration orders) but there is nothing
+// to schedule, so no bubble and no scheduler are used.
+type SeqRun interface {
+	RunSeq(sched *simrt.Source, keepLog bool) *simrt.Result
+}
+
 // Harness creates runs from a plan source.
 type Harness interface {
 	Name() string
@@ -136,6 +143,20 @@ func execute(t *testing.T, h Harness, job *Job, plan, sched *simrt.Source, keepL
 		OnStep: run.OnStep, OnQuiesce: run.OnQuiesce}
 	if run.StateSig() != 0 || true {
 		cfg.StateSig = run.StateSig
+	}
+	if sr, ok := run.(SeqRun); ok {
+		// Sequential code under test: no goroutines to schedule; the run draws
+		// its fault choices from the schedule source directly.
+		o.res = sr.RunSeq(sched, keepLog)
+		o.res.SchedTrace = sched.Trace()
+		o.fail = o.res.Failure
+		if o.fail == nil && !o.res.Inconclusive {
+			o.fail = run.Check(o.res)
+		}
+		if o.fail != nil {
+			sort.Strings(o.fail.Sites)
+		}
+		return
 	}
 	func() {
 		defer func() {
